@@ -259,6 +259,30 @@ def run(rep, tier, seed):
     from contracts.c20_plots import all_contracts
     cs, table = all_contracts(tier)
     run_contracts(rep, cs, table, tier=tier, pid="C20")
+    # plot_diagrams as a call-trace contract (scatter coordinates, infinity line inside the axes, limits, title / legend, frame)
+    from contracts.c20_plots import plot_diagrams_contracts
+    cs2, t2 = plot_diagrams_contracts(tier)
+
+    def _replay_pd(a):
+        class C:
+            def __init__(self):
+                self.v = []
+
+            def violation(self, what, sig, payload, **k):
+                self.v.append((what, sig, payload))
+
+            def note(self, *a):
+                pass
+
+            def bounded(self, *a, **k):
+                pass
+        c = C()
+        _standin(c, "quick", 0)
+        for what, sig, payload in c.v:
+            if "plot_diagrams" in what or "diagram" in sig:
+                return True, payload, sig, what
+        return False, None, None, None
+    run_contracts(rep, cs2, t2, tier=tier, pid="C20", replayers=[(r"plot_diagrams", _replay_pd)])
     rep.assume("D22 matplotlib turns the recorded Axes calls into the artists named by the property (Line2D per plot call, PathCollection per scatter)",
                "the matching passed to the plotting functions is a certificate in the sense of C06 (integer-valued indices in range or -1)")
     _standin(rep, tier, seed)
